@@ -350,9 +350,91 @@ impl Display for Format<'_, Formula> {
                 }
                 self.fmt_unary(Format(formula.as_ref()), f)
             }
+            Formula::BinaryFormula {
+                connective: BinaryConnective::ReverseImplication,
+                lhs,
+                rhs,
+            } if !Format(lhs.as_ref()).mandatory_parentheses()
+                && ends_in_bare_term(lhs.as_ref())
+                && starts_with_integer_term(rhs.as_ref()) =>
+            {
+                // `X = 1 <- 0 = 1` would be read as the comparison chain `X = 1 < -0 = 1`
+                // (and `s <- 0 = 1` as `s < -0 = 1`)
+                write!(f, "({})", Format(lhs.as_ref()))?;
+                self.fmt_operator(f)?;
+                let rhs = Format(rhs.as_ref());
+                if rhs.mandatory_parentheses() {
+                    write!(f, "({rhs})")
+                } else {
+                    write!(f, "{rhs}")
+                }
+            }
             Formula::BinaryFormula { lhs, rhs, .. } => {
                 self.fmt_binary(Format(lhs.as_ref()), Format(rhs.as_ref()), f)
             }
+        }
+    }
+}
+
+/// Does the text printed for `formula` start with an integer term (outside of parentheses)?
+fn starts_with_integer_term(formula: &Formula) -> bool {
+    match formula {
+        Formula::AtomicFormula(AtomicFormula::Comparison(c)) => {
+            matches!(c.term, GeneralTerm::IntegerTerm(_))
+        }
+        Formula::AtomicFormula(_)
+        | Formula::UnaryFormula { .. }
+        | Formula::QuantifiedFormula { .. } => false,
+        Formula::BinaryFormula { lhs, .. } => {
+            let outer = Format(formula);
+            let inner_format = Format(lhs.as_ref());
+            let parenthesised = match lhs.as_ref() {
+                Formula::AtomicFormula(_) => false,
+                _ => {
+                    inner_format.mandatory_parentheses()
+                        || outer.precedence() < inner_format.precedence()
+                        || outer.precedence() == inner_format.precedence()
+                            && inner_format.associativity() == Associativity::Right
+                }
+            };
+            !parenthesised && starts_with_integer_term(lhs)
+        }
+    }
+}
+
+/// Does the text printed for `formula` end with a term (a comparison or a propositional atom)
+/// that is not enclosed in parentheses?
+fn ends_in_bare_term(formula: &Formula) -> bool {
+    match formula {
+        Formula::AtomicFormula(AtomicFormula::Comparison(_)) => true,
+        Formula::AtomicFormula(AtomicFormula::Atom(a)) => a.terms.is_empty(),
+        Formula::AtomicFormula(_) => false,
+        Formula::UnaryFormula { formula: inner, .. }
+        | Formula::QuantifiedFormula { formula: inner, .. } => {
+            let outer = Format(formula);
+            let inner_format = Format(inner.as_ref());
+            let parenthesised = match inner.as_ref() {
+                Formula::AtomicFormula(_) => false,
+                _ => {
+                    inner_format.mandatory_parentheses()
+                        || outer.precedence() < inner_format.precedence()
+                }
+            };
+            !parenthesised && ends_in_bare_term(inner)
+        }
+        Formula::BinaryFormula { rhs, .. } => {
+            let outer = Format(formula);
+            let inner_format = Format(rhs.as_ref());
+            let parenthesised = match rhs.as_ref() {
+                Formula::AtomicFormula(_) => false,
+                _ => {
+                    inner_format.mandatory_parentheses()
+                        || outer.precedence() < inner_format.precedence()
+                        || outer.precedence() == inner_format.precedence()
+                            && outer.associativity() == Associativity::Left
+                }
+            };
+            !parenthesised && ends_in_bare_term(rhs)
         }
     }
 }
